@@ -111,6 +111,55 @@ fn run_child(dir: &Path, env: &[(&str, String)]) -> Option<i32> {
     c.status().expect("spawn").code()
 }
 
+/// (is a freezer point, number within its kind, label) in the order the reference run reached them
+fn parse_points(log: &Path) -> Vec<(bool, u64, String)> {
+    std::fs::read_to_string(log).unwrap_or_default().lines().filter_map(|l| {
+        let (n, label) = l.split_once(' ')?;
+        let n: u64 = n.parse().ok()?;
+        Some((label.starts_with("append:") || label.starts_with("sync:"), n, label.to_string()))
+    }).collect()
+}
+
+/// items appended to the freezer and not yet covered by a completed sync_all when the given point is reached
+fn unsynced_at(points: &[(bool, u64, String)], fz: bool, at: u64) -> u64 {
+    let pos = match points.iter().position(|(k, n, _)| *k == fz && *n == at) { Some(p) => p, None => return 0 };
+    let start = points[..pos].iter().rposition(|(_, _, l)| l == "sync:before").map(|i| i + 1).unwrap_or(0);
+    points[start..pos].iter().filter(|(_, _, l)| l == "append:after-index").count() as u64
+}
+
+fn find_file(dir: &Path, name: &str) -> Option<std::path::PathBuf> {
+    for e in std::fs::read_dir(dir).ok()?.flatten() {
+        let p = e.path();
+        if p.is_dir() { if let Some(f) = find_file(&p, name) { return Some(f); } }
+        else if p.file_name().map(|n| n == name).unwrap_or(false) { return Some(p); }
+    }
+    None
+}
+
+/// Power loss instead of a process abort: of the `unsynced` newest freezer items any suffix may be gone
+/// (index entries and data), possibly with a torn last entry.  Synced items are never touched.
+fn power_loss(ancient: &Path, unsynced: u64, rng: &mut Rng) -> Option<Value> {
+    let index = find_file(ancient, "INDEX")?;
+    let raw = std::fs::read(&index).ok()?;
+    let entries: Vec<(u32, u64)> = raw.chunks_exact(12).map(|c| (u32::from_le_bytes(c[0..4].try_into().unwrap()), u64::from_le_bytes(c[4..12].try_into().unwrap()))).collect();
+    if entries.len() < 2 { return None; }
+    let lose = rng.range(0, std::cmp::min(unsynced, entries.len() as u64 - 1));
+    let keep = entries.len() as u64 - lose;              // entries kept, sentinel included
+    let torn = *rng.pick(&[0u64, 0, 5, 11]);
+    let ilen = std::cmp::min(raw.len() as u64, keep * 12 + if lose > 0 { torn } else { 0 });
+    let head = entries[entries.len() - 1].0;
+    let last_kept = entries[keep as usize - 1];
+    let blk = index.parent()?.join(format!("blk{:06}", head));
+    let cur = std::fs::metadata(&blk).map(|m| m.len()).unwrap_or(0);
+    // data of the kept items stays; bytes after it may be partly there
+    let floor = if last_kept.0 == head { last_kept.1 } else { 0 };
+    let hlen = if lose == 0 && rng.chance(1, 2) { cur } else { std::cmp::min(cur, floor + rng.below(9)) };
+    let cut = |p: &Path, len: u64| { if let Ok(f) = std::fs::OpenOptions::new().write(true).open(p) { let c = f.metadata().map(|m| m.len()).unwrap_or(0); if len < c { let _ = f.set_len(len); } } };
+    cut(&index, ilen);
+    cut(&blk, hlen);
+    Some(json!({"unsynced_items": unsynced, "items_lost": lose, "index_bytes": ilen, "head_file_bytes": hlen}))
+}
+
 fn dn(b: &[u8]) -> u128 {
     u64::from_le_bytes(blake2b_256(b)[..8].try_into().unwrap()) as u128
 }
@@ -261,11 +310,12 @@ pub fn run(seed: u64, thorough: bool, out_dir: &Path, scratch: &Path) -> Out {
         let case_dir = scratch.join(format!("crash{hi}"));
         let fresh = |case_dir: &Path| { let _ = std::fs::remove_dir_all(case_dir); copy_dir(&pristine, case_dir); };
         fresh(&case_dir);
-        let log_db = case_dir.join("db.log");
-        let log_fz = case_dir.join("fz.log");
-        let code = run_child(&case_dir, &[("VERIF_CRASH_LOG", log_db.display().to_string()), ("VERIF_FREEZER_CRASH_LOG", log_fz.display().to_string())]);
-        let n_db = std::fs::read_to_string(&log_db).unwrap_or_default().lines().count() as u64;
-        let n_fz = std::fs::read_to_string(&log_fz).unwrap_or_default().lines().count() as u64;
+        // both kinds of points go to one log: its order is the order in which they are reached
+        let log_all = case_dir.join("points.log");
+        let code = run_child(&case_dir, &[("VERIF_CRASH_LOG", log_all.display().to_string()), ("VERIF_FREEZER_CRASH_LOG", log_all.display().to_string())]);
+        let ref_points = parse_points(&log_all);
+        let n_db = ref_points.iter().filter(|(k, _, _)| !*k).count() as u64;
+        let n_fz = ref_points.iter().filter(|(k, _, _)| *k).count() as u64;
         if code != Some(0) {
             out.viol.push(json!({"what": format!("the reference freeze pass in a child process failed: exit {:?}", code), "detail": {"case": jhist, "stderr": std::fs::read_to_string(case_dir.join("child.err")).unwrap_or_default()}}));
             continue;
@@ -285,10 +335,14 @@ pub fn run(seed: u64, thorough: bool, out_dir: &Path, scratch: &Path) -> Out {
         for (var, at) in points {
             fresh(&case_dir);
             let _ = run_child(&case_dir, &[(var, at.to_string())]);
+            // two crashes in three are power losses: freezer items appended since the last completed sync_all may be gone
+            let unsynced = unsynced_at(&ref_points, var == "VERIF_FREEZER_CRASH_AT", at);
+            let loss = if unsynced > 0 && rng.chance(2, 3) { power_loss(&case_dir.join("node").join("ancient"), unsynced, &mut rng) } else { None };
+            if loss.is_some() { *out.stats.entry("crash_with_power_loss".into()).or_default() += 1; }
             out.evaluations += 1;
             out.distinct.insert(format!("{hi}/{var}/{at}"));
             *out.stats.entry(format!("crash_{}", if var == "VERIF_CRASH_AT" { "db_write" } else { "freezer_write" })).or_default() += 1;
-            let ctx = json!({"case": jhist, "crash": {"kind": var, "at": at}});
+            let ctx = json!({"case": jhist, "crash": {"kind": var, "at": at, "power_loss": loss}});
             note_history(&[ctx.clone()]);
             let r = std::panic::catch_unwind(std::panic::AssertUnwindSafe(|| {
                 let mut viol = vec![];
